@@ -556,6 +556,38 @@ pub fn run(replay: Option<Value>) -> i32 {
             }),
         ));
     }
+    // the real alphabets with graded columns (first column times 2^-520, last column times 2^520, and the reverse): the
+    // unknowns are measured in very different units; the elimination is the same one, exactly, column by column
+    for (n, alpha) in [(2usize, real_alpha12.clone()), (3, vec![0, 1, -1])] {
+        let k = alpha.len();
+        let per = k.pow((n * n) as u32);
+        let only = only.clone();
+        groups.push((
+            format!("real n={} alphabet={:?}, columns graded by 2^-520 .. 2^520 and the reverse", n, alpha),
+            per * 2,
+            Box::new(move |idx| {
+                let (gi, mi) = (idx / per, idx % per);
+                let key = format!("realgraded:{}:{}:{}:{}", n, k, gi, mi);
+                if let Some(o) = &only {
+                    if *o != key {
+                        return CaseOut::default();
+                    }
+                }
+                let digits = crate::util::decode(mi, &vec![k; n * n]);
+                let ai: Vec<i64> = digits.iter().map(|d| alpha[*d]).collect();
+                let g = if gi == 0 { 1 } else { -1 };
+                let colf: Vec<f64> = (0..n).map(|j| 2f64.powi(g * (1040 * j as i32 / (n as i32 - 1) - 520))).collect();
+                let a: Vec<f64> = ai.iter().enumerate().map(|(q, v)| *v as f64 * colf[q % n]).collect();
+                let desc = json!({"key": key, "n": n, "matrix_before_scaling": ai, "column_factors": colf.iter().map(|f| format!("2^{}", f.log2())).collect::<Vec<_>>()});
+                let mut o = check_real(&key, n, &a, Some(det_real(n, &ai)), desc.clone());
+                for v in o.violations.iter_mut() {
+                    v.sig.insert("scale".into(), "graded columns".into());
+                }
+                o.sample = Some(desc);
+                o
+            }),
+        ));
+    }
     for (n, alpha) in [(1usize, cplx_alpha12.clone()), (2, cplx_alpha12.clone()), (3, vec![(0, 0), (1, 0), (0, 1)])] {
         let k = alpha.len();
         let per = k.pow((n * n) as u32);
